@@ -100,7 +100,11 @@ class MessageExtractor:
                             - code.count("\n"),
                             0,
                         )
-                    code = "(" + code + "|" + "\n" * gap + node.escapes + ")"
+                    # (the closing parenthesis goes on a line of its own:
+                    # the list may end with a comment)
+                    code = (
+                        "(" + code + "|" + "\n" * gap + node.escapes + "\n)"
+                    )
             else:
                 continue
 
